@@ -11,7 +11,26 @@ import traceprep
 from common import BUILD, Inconclusive, goenv, log
 
 
-def run_batch(scenarios, workdir, timeout_per=60, procs=1):
+def run_batch(scenarios, workdir, timeout_per=60, procs=6):
+    """Run scenarios in `procs` concurrent harness processes."""
+    if procs <= 1 or len(scenarios) < 2 * procs:
+        return _run_batch1(scenarios, workdir, timeout_per)
+    from concurrent.futures import ThreadPoolExecutor
+    parts = [scenarios[i::procs] for i in range(procs)]
+    outdir = os.path.join(workdir, "out")
+    os.makedirs(outdir, exist_ok=True)
+    with ThreadPoolExecutor(max_workers=procs) as ex:
+        res = list(ex.map(lambda ip: _run_batch1(ip[1], os.path.join(workdir, "p%d" % ip[0]), timeout_per), enumerate(parts)))
+    outcomes = {}
+    for oc, od in res:
+        outcomes.update(oc)
+        for f in os.listdir(od):
+            if f not in ("outcomes.ndjson", "current"):
+                shutil.move(os.path.join(od, f), os.path.join(outdir, f))
+    return outcomes, outdir
+
+
+def _run_batch1(scenarios, workdir, timeout_per=60):
     """Run scenarios through `vh run`; returns {id: outcome dict}.  A crash of the child is
     attributed to the scenario that was running and the batch continues in a new child."""
     os.makedirs(workdir, exist_ok=True)
@@ -70,7 +89,7 @@ def load_trace(outdir, sid):
     return traceprep.load_ndjson(p)
 
 
-def run_and_validate(ctx, scenarios, tag, bound=None, batch=60, module="Trace_Rapid", cfg="Trace_Rapid.cfg",
+def run_and_validate(ctx, scenarios, tag, bound=None, batch=12, module="Trace_Rapid", cfg="Trace_Rapid.cfg",
                      crash_is_violation=True, timeout_per=60):
     """Run + validate.  Returns a summary dict; records violations in ctx."""
     t0 = time.time()
@@ -108,13 +127,14 @@ def run_and_validate(ctx, scenarios, tag, bound=None, batch=60, module="Trace_Ra
         items.append((s, evs))
     # validate in batches
     nrej = 0
-    for i in range(0, len(items), batch):
-        if nrej >= 4:
-            summary["skipped_after_rejections"] = len(items) - i
-            break
-        chunk = items[i:i + batch]
-        v = tracecheck.validate(chunk, module=module, cfg=cfg, bound=bound,
-                                explain_dir=os.path.join(work, "explain"))
+    chunks = [items[i:i + batch] for i in range(0, len(items), batch)]
+    from concurrent.futures import ThreadPoolExecutor
+    with ThreadPoolExecutor(max_workers=6) as ex:
+        verdicts = list(ex.map(lambda ch: tracecheck.validate(ch, module=module, cfg=cfg, bound=bound,
+                                                              explain_dir=os.path.join(work, "explain")), chunks))
+    timeouts = []
+    for chunk, v in zip(chunks, verdicts):
+        timeouts += v.timeouts
         if v.error:
             raise Inconclusive("trace validation failed to run: %s" % v.error[-3000:])
         summary["accepted"] += len(v.accepted)
@@ -138,6 +158,7 @@ def run_and_validate(ctx, scenarios, tag, bound=None, batch=60, module="Trace_Ra
                 ctx.known_finding(kf, what)
             else:
                 ctx.violation(rd, what)
+    summary["validation_timeouts"] = timeouts
     hangs = [o for o in outcomes.values() if o["status"] == "hang"]
     summary["wall_s"] = round(time.time() - t0, 1)
     summary["hang_ids"] = [o["id"] for o in hangs][:10]
